@@ -258,7 +258,12 @@ func vbBody(thread *starlark.Thread, fn *starlark.Builtin, args starlark.Tuple, 
 	h := sha256.New()
 	fmt.Fprintf(h, "label %q\nvals %s\n", lab, vals.String())
 	for _, r := range reads {
-		fmt.Fprintf(h, "read %q %s\n", r, readTree(filepath.Join(root, filepath.FromSlash(r))))
+		p := filepath.Join(root, filepath.FromSlash(r))
+		if filepath.IsAbs(r) {
+			// self.sources: absolute host paths; what is hashed is the path relative to the project root
+			p, r = r, strings.TrimPrefix(r, root+string(filepath.Separator))
+		}
+		fmt.Fprintf(h, "read %q %s\n", r, readTree(p))
 	}
 	base := h.Sum(nil)
 	for _, w := range writes {
